@@ -83,6 +83,7 @@ pub struct Gen<'a> {
     pub env_types: Vec<Ty>,
     pub budget: usize,
     pub allow_softfork: bool,
+    pub crypto: bool,
 }
 
 impl Gen<'_> {
@@ -178,6 +179,7 @@ impl Gen<'_> {
                 5 => self.expr(Ty::Int, d),
                 6 => call(3, vec![self.expr(Ty::Bool, d), self.expr(Ty::Bytes, d), self.expr(Ty::Bytes, d)]),
                 7 => self.apply(Ty::Bytes, d),
+                8 if self.crypto => self.crypto_expr(d),
                 _ => self.leaf(Ty::Bytes),
             },
             Ty::Bool => match self.rng.below(10) {
@@ -204,6 +206,33 @@ impl Gen<'_> {
                 let t = *self.rng.pick(&[Ty::Int, Ty::Bytes, Ty::Bool, Ty::List]);
                 self.expr(t, depth)
             }
+        }
+    }
+    /// a G1 point expression
+    fn g1(&mut self, d: usize) -> T {
+        match self.rng.below(6) {
+            0 if d > 0 => call(29, vec![self.g1(d - 1), self.g1(d - 1)]),
+            1 if d > 0 => call(50, vec![self.g1(d - 1), quote(random_int(self.rng))]),
+            2 if d > 0 => call(51, vec![self.g1(d - 1)]),
+            3 if d > 0 => call(49, vec![self.g1(d - 1), self.g1(d - 1)]),
+            _ => call(30, vec![quote(random_int(self.rng))]),
+        }
+    }
+    /// hashing and BLS G1 operators (byte-string results)
+    fn crypto_expr(&mut self, d: usize) -> T {
+        match self.rng.below(8) {
+            0 | 1 => call(63, vec![self.expr(Ty::Any, d)]),
+            2 => {
+                let n = self.rng.below(3) as usize;
+                call(62, (0..n).map(|_| self.expr(Ty::Bytes, d)).collect())
+            }
+            3 => {
+                let h1 = quote(T::Atom(self.rng.bytes(32)));
+                let h2 = call(11, vec![self.expr(Ty::Bytes, d)]);
+                let amt = quote(int((self.rng.next() >> self.rng.below(64)) as i128));
+                call(48, vec![h1, h2, amt])
+            }
+            _ => self.g1(d.min(2)),
         }
     }
     fn nonzero(&mut self, d: usize) -> T {
@@ -356,7 +385,8 @@ pub fn random_flags(rng: &mut Rng) -> u32 {
 pub fn random_program(rng: &mut Rng, size: usize, allow_softfork: bool) -> (T, T) {
     let n = rng.below(4) as usize;
     let tys: Vec<Ty> = (0..n).map(|_| *rng.pick(&[Ty::Int, Ty::Bytes, Ty::Bool, Ty::List])).collect();
-    let mut g = Gen { rng, env_types: tys.clone(), budget: size, allow_softfork };
+    let crypto = rng.chance(1, 8);
+    let mut g = Gen { rng, env_types: tys.clone(), budget: size, allow_softfork, crypto };
     let env_vals: Vec<T> = tys.iter().map(|t| g.constant(*t)).collect();
     let ty = *g.rng.pick(&[Ty::Int, Ty::Int, Ty::Bytes, Ty::Bool, Ty::List, Ty::Any]);
     let depth = g.rng.below(5) as usize + 1;
@@ -481,7 +511,7 @@ pub fn generate_op(rng: &mut Rng, n: usize, _tier: &str, only: Option<&[&str]>) 
                 break c;
             }
         };
-        let mut g = Gen { rng, env_types: vec![], budget: 0, allow_softfork: false };
+        let mut g = Gen { rng, env_types: vec![], budget: 0, allow_softfork: false, crypto: false };
         let mut args: Vec<T> = if sig.is_empty() {
             let n = g.rng.below(5) as usize;
             let ty = match name {
